@@ -113,6 +113,10 @@ def edit_listing(rng, text: str):
                 out.append(f"{int(ln.addr, 16) + 1:016x} <{rng.choice(SYMS) if rng.random() < 0.9 else long_name(rng)}>:")
             if do("section-header"):
                 out += ["", f"Disassembly of section {rng.choice(SECTION_NAMES)}:", ""]
+            if rng.random() < p_edit * 0.3:
+                # the listing of an archive or of several objects (`objdump -d libx.a`, `objdump -d a.o b.o`): one banner per member, in the middle of the text
+                edits.append("member-banner")
+                out += ["", f"{rng.choice(BANNER_FILES)}:     file format {rng.choice(TARGETS[:2])}", "", "", f"Disassembly of section {rng.choice(SECTION_NAMES)}:", ""]
         elif ln.kind == "cont":
             if do("remove-continuation"):
                 continue
@@ -138,6 +142,9 @@ def edit_listing(rng, text: str):
     if rng.random() < 0.3:
         out = ["", f"{rng.choice(BANNER_FILES + ['x.o'] * 6)}:     file format {rng.choice(TARGETS)}", ""] + out
         edits.append("file-header-added")
+        if rng.random() < 0.3:
+            out = [f"In archive {rng.choice(['libx.a', 'lib with blank.a', '/usr/lib/libc.a'])}:"] + out
+            edits.append("archive-line-added")
     r9 = rng.random()
     if r9 < 0.12:
         edits.append("crlf-line-endings")        # the same listing saved with Windows line endings
